@@ -36,8 +36,16 @@ func c20repeat(n int, f func() string) []string {
 
 func (ctx *Ctx) c20pureCheck(sig, what, input, golit string, n int, f func() string) {
 	res := c20repeat(n, f)
-	ctx.Eval("pure "+sig+" "+input, true)
+	ctx.Eval("pure "+sig+" "+input, false) // not a history: does not count as a distinct non-trivial case
 	ctx.Tag("pure:" + sig)
+	for _, x := range res {
+		if x == "panic" {
+			// every call of the purity battery is valid by construction: a panic is a finding of its own,
+			// and "all calls panicked" must not pass as "all calls agree"
+			ctx.Tag("pure-panic:" + sig)
+			ctx.Fail(Failure{Site: "no-panic", Sig: "panic:pure:" + sig, What: "a call of the purity battery panicked: " + what, Input: input, GoLit: golit, Outcome: strings.Join(res, "  |  ")})
+		}
+	}
 	if len(res) > 1 {
 		ctx.Fail(Failure{Site: "purity-repeat", Sig: sig, What: what, Input: input, GoLit: golit,
 			Outcome: fmt.Sprintf("%d distinct results in %d calls: %s", len(res), n, strings.Join(res, "  |  "))})
